@@ -75,6 +75,10 @@ def extract(ctx):
         os.remove(out)
     with open(out, "w") as f:
         f.write(p.stdout)
+    # the scenario of known finding describe-cyclic-value is only generated when the finding is listed
+    known, _ = checklib.load_known()
+    if ("C16", "describe-cyclic-value") in known:
+        checklib.GOENV["C16_CYCLIC"] = "1"
     import threading
     ctx.race_thread = threading.Thread(target=_race_pass, args=(ctx,))
     ctx.race_thread.start()
